@@ -17,7 +17,7 @@ META = dict(
                 "parameters are z3 reals). Per position j the solver decides: 0 <= eta_j <= u (not NaN); 0 <= lam_j <= 1/m_j "
                 "wherever 0 < m_j <= u; shrink_trunc: eta_j > m_j wherever m_j < u, with m_j the oracle's own null conditional mean.",
     bounds={"quick": {"n": [1, 2, 3], "N": "n, n+1, n+3, 50, inf", "ut": "plur, super, cmp10 (optimal_comparison: cmp50, cmp10, cmp001)"},
-            "thorough": {"n": [1, 2, 3, 4], "N": "n, n+1, n+3, 50, inf and symbolic N >= n", "ut": list(nnm.UT)}},
+            "thorough": {"n": [1, 2, 3, 4, 5], "N": "n, n+1, n+3, 50, inf and symbolic N >= n", "ut": list(nnm.UT)}},
     outside=["samples longer than the bound", "floating-point rounding (the known sliver finding is the one place where it matters)"],
     assumptions=["eta in (t,u); c,d,minsd > 0; f >= 0; lam in [0,1/u] for fixed_bet, unconstrained for agrapa; "
                  "0 < c_grapa_0 <= c_grapa_max < 1; c_grapa_grow >= 0; rate_error_2 in [0,1]; u > 1 for optimal_comparison"],
@@ -30,7 +30,7 @@ SLIVER_ID = "C13-shrink-trunc-sliver"
 
 def cells(tier):
     out = []
-    ns = [1, 2, 3] if tier == "quick" else [1, 2, 3, 4]
+    ns = [1, 2, 3] if tier == "quick" else [1, 2, 3, 4, 5]
     for m in RULES:
         for n in ns:
             Ns = nnm.n_grid(m, n) + (["sym"] if tier == "thorough" and n <= 3 else [])
